@@ -55,6 +55,14 @@ def c04(sess):
 CONFORMANT = ("boot", "poll", "ack", "ack-empty", "report", "request", "render", "rerun", "persist")
 
 
+def first_raw(sess):
+    """Index of the first API call that is not part of a protocol-conformant provider operation."""
+    for i, t in enumerate(sess.tags):
+        if t not in CONFORMANT:
+            return i
+    return len(sess.tags)
+
+
 def c18(sess):
     """History is append-only; started records keep id/route/ctxs.in/prev; decided records are frozen."""
     out = []
@@ -332,5 +340,188 @@ def c11(sess):
                 flagged = set((s["id"], s["route"]) for s in prev["state"]["state"]["staged"] if s.get("run_on_fail"))
                 if any((o["id"], o["route"]) not in flagged for o in obs["result"]):
                     out.append({"what": "task offered after the workflow failed", "step": i})
+        prev = obs
+    return out
+
+
+COMMANDS = ("continue", "fail", "noop", "retry")
+
+
+def _def_edges(definition):
+    """(src, dst) pairs and roots read straight from the definition (independent of the composer)."""
+    tasks = definition.get("tasks", {})
+    edges = set()
+    for t, sp in tasks.items():
+        for tr in sp.get("next") or []:
+            do = tr.get("do") or ["continue"]
+            if isinstance(do, str):
+                do = [x.strip() for x in do.split(",")]
+            for d in do:
+                edges.add((t, d))
+    targets = set(d for _, d in edges)
+    roots = set(t for t in tasks if t not in targets)
+    return edges, roots
+
+
+def c01(sess):
+    """Offers come from ready staged entries; a started record is justified by completed predecessors whose
+    transition into it is satisfied, or it is a root (or a copy made by rerun)."""
+    out = []
+    edges, roots = _def_edges(sess.definition)
+    prev = None
+    rerun_copies = set()
+    for i, (op, obs) in enumerate(sess.trace):
+        st = obs["state"]["state"]
+        if prev is not None:
+            pst = prev["state"]["state"]
+            if op[0] == "get_next" and obs["result"] and sess.tags[i] in CONFORMANT:
+                ready = set((s["id"], s["route"]) for s in pst["staged"] if s["ready"] and not s.get("completed"))
+                for o in obs["result"]:
+                    if (o["id"], o["route"]) not in ready and pst["status"] != "null":
+                        out.append({"what": "task %s (route %d) offered without a ready staged entry"
+                                            % (o["id"], o["route"]), "step": i})
+            if op[0] == "rerun" and obs["raised"] is None:
+                for k in range(len(pst["sequence"]), len(st["sequence"])):
+                    rerun_copies.add(k)
+            # justification of every record created by this call
+            for k in range(len(pst["sequence"]), len(st["sequence"])):
+                r = st["sequence"][k]
+                if k in rerun_copies:
+                    continue
+                if not r["prev"]:
+                    if r["id"] not in roots:
+                        out.append({"what": "record %d of %s has no predecessor but %s is not a start task"
+                                            % (k, r["id"], r["id"]), "step": i})
+                    continue
+                for trid, j in r["prev"].items():
+                    src = trid.rsplit("__t", 1)[0]
+                    if j >= len(st["sequence"]):
+                        out.append({"what": "record %d of %s refers to a predecessor index out of range" % (k, r["id"]),
+                                    "step": i})
+                        continue
+                    p = st["sequence"][j]
+                    key = trid.rsplit("__t", 1)[1]
+                    nxt = p["next"].get("%s__t%s" % (r["id"], key))
+                    if p["id"] != src or (src, r["id"]) not in edges:
+                        out.append({"what": "record %d of %s claims predecessor %s through %s which is not a transition "
+                                            "of the definition" % (k, r["id"], p["id"], trid), "step": i})
+                    elif p.get("status") not in COMPLETED:
+                        out.append({"what": "record %d of %s started although its predecessor %s (record %d) is %s"
+                                            % (k, r["id"], p["id"], j, p.get("status")), "step": i})
+                    elif nxt is not True:
+                        out.append({"what": "record %d of %s started through transition %s of %s whose condition is "
+                                            "recorded as %r" % (k, r["id"], key, p["id"], nxt), "step": i})
+        prev = obs
+    return out
+
+
+def c12(sess):
+    """With-items: window, once, in order, drain before complete, quiet when held."""
+    out = []
+    tasks = sess.definition.get("tasks", {})
+    prev = None
+    offered = {}          # (task, route, record count, retry tally) -> set of item ids offered
+    stop = first_raw(sess)
+    for i, (op, obs) in enumerate(sess.trace):
+        if i >= stop:
+            break
+        st = obs["state"]["state"]
+        if prev is not None:
+            pst = prev["state"]["state"]
+            if op[0] == "get_next" and obs["result"] and sess.tags[i] in CONFORMANT:
+                for o in obs["result"]:
+                    if "items_count" not in o:
+                        continue
+                    ids = [a["item_id"] for a in o["actions"]]
+                    stg = [s for s in st["staged"] if s["id"] == o["id"] and s["route"] == o["route"]]
+                    items = [it["status"] for it in stg[0].get("items", [])] if stg else []
+                    if ids != sorted(ids):
+                        out.append({"what": "items of %s offered out of index order: %r" % (o["id"], ids), "step": i})
+                    unset = [k for k, x in enumerate(items) if x == "null"]
+                    if ids and ids != unset[: len(ids)]:
+                        out.append({"what": "items offered %r are not the first unset items %r of %s"
+                                            % (ids, unset, o["id"]), "step": i})
+                    conc = o.get("concurrency")
+                    if isinstance(conc, int) and not isinstance(conc, bool) and ids:
+                        active = len([x for x in items if x in ACTIVE])
+                        if len(ids) + active > max(conc, 1):
+                            out.append({"what": "%d items offered with %d active exceeds concurrency %d of %s"
+                                                % (len(ids), active, conc, o["id"]), "step": i})
+                    recs = [r for r in st["sequence"] if r["id"] == o["id"] and r["route"] == o["route"]]
+                    tally = (recs[-1].get("retry") or {}).get("tally", 0) if recs else 0
+                    seen = offered.setdefault((o["id"], o["route"], len(recs), tally), set())
+                    dup = [k for k in ids if k in seen]
+                    if dup and not any(x[0] == "rerun" for x, _ in sess.trace[: i]):
+                        out.append({"what": "items %r of %s offered a second time" % (dup, o["id"]), "step": i})
+                    seen.update(ids)
+            if op[0] == "get_next" and obs["result"] and pst["status"] in ("pausing", "paused", "canceling", "canceled"):
+                out.append({"what": "actions offered while %s" % pst["status"], "step": i})
+            # the window at every state: active items <= literal concurrency
+            for s in st["staged"]:
+                w = tasks.get(s["id"], {}).get("with")
+                if isinstance(w, dict) and isinstance(w.get("concurrency"), int) and "items" in s \
+                        and sess.tags[i] in CONFORMANT:
+                    active = len([x for x in s["items"] if x["status"] in ACTIVE])
+                    if active > max(w["concurrency"], 1):
+                        out.append({"what": "%d items of %s active with concurrency %d" % (active, s["id"], w["concurrency"]),
+                                    "step": i})
+            # drain before complete / succeeded iff all items succeeded
+            if op[0] == "event" and op[3][0] == "item" and sess.tags[i] in CONFORMANT:
+                t, rt = op[1], op[2]
+                key = "%s__r%s" % (t, rt)
+                if key in st["tasks"] and key in pst["tasks"]:
+                    ra, rb = pst["sequence"][pst["tasks"][key]], st["sequence"][st["tasks"][key]]
+                    if ra.get("status") not in COMPLETED and rb.get("status") in COMPLETED:
+                        ps = [s for s in pst["staged"] if s["id"] == t and s["route"] == rt]
+                        if ps and "items" in ps[0]:
+                            items = [x["status"] for x in ps[0]["items"]]
+                            if op[3][1] < len(items):
+                                items[op[3][1]] = op[3][2]
+                            if any(x in ACTIVE for x in items):
+                                out.append({"what": "with-items task %s completed (%s) while items are active: %r"
+                                                    % (t, rb.get("status"), items), "step": i})
+                            if rb.get("status") == "succeeded" and any(x != "succeeded" for x in items):
+                                out.append({"what": "with-items task %s succeeded with item statuses %r" % (t, items),
+                                            "step": i})
+        prev = obs
+    return out
+
+
+def c13(sess):
+    """Retry: tally <= count; the retried attempt decides no transition; re-offers carry the retry delay."""
+    out = []
+    prev = None
+    stop = first_raw(sess)
+    for i, (op, obs) in enumerate(sess.trace):
+        if i >= stop:
+            break
+        st = obs["state"]["state"]
+        for k, r in enumerate(st["sequence"]):
+            rt = r.get("retry")
+            if rt and isinstance(rt.get("count"), int) and not isinstance(rt.get("count"), bool):
+                if rt["tally"] > max(rt["count"], 0):
+                    out.append({"what": "record %d of %s retried %d times with count %d" % (k, r["id"], rt["tally"], rt["count"]),
+                                "step": i})
+        if prev is not None:
+            pst = prev["state"]["state"]
+            for k in range(min(len(pst["sequence"]), len(st["sequence"]))):
+                ra, rb = pst["sequence"][k], st["sequence"][k]
+                ta = (ra.get("retry") or {}).get("tally", 0)
+                tb = (rb.get("retry") or {}).get("tally", 0)
+                if tb > ta and sess.tags[i] in CONFORMANT:
+                    if rb.get("status") != "retrying":
+                        out.append({"what": "tally of %s increased but its status is %s" % (rb["id"], rb.get("status")), "step": i})
+                    if rb["next"] != ra["next"] or len(st["contexts"]) != len(pst["contexts"]):
+                        out.append({"what": "a transition or publish fired for the retried attempt of %s" % rb["id"], "step": i})
+                    if tb > ta + 1:
+                        out.append({"what": "tally of %s increased by %d in one call" % (rb["id"], tb - ta), "step": i})
+            if op[0] == "get_next" and obs["result"] and sess.tags[i] in CONFORMANT:
+                for o in obs["result"]:
+                    sg = [s for s in pst["staged"] if s["id"] == o["id"] and s["route"] == o["route"]]
+                    if len(sg) == 1 and "retry" in sg[0]:
+                        want = sg[0]["retry"].get("delay") or 0
+                        if o.get("delay") != want:
+                            out.append({"what": "retry of %s offered with delay %r, configured %r" % (o["id"], o.get("delay"), want),
+                                        "step": i})
         prev = obs
     return out
